@@ -40,6 +40,9 @@ pub fn parallel_walk_dir<
     let num_threads = std::cmp::max(1, num_cpus::get() / 2);
     #[cfg(unix)]
     let num_threads = 1;
+    // [verification hook] lets a test run the walk with more than one worker on unix
+    #[cfg(rjrssync_verif)]
+    let num_threads = std::env::var("RJRSSYNC_VERIF_WALK_THREADS").ok().and_then(|v| v.parse().ok()).unwrap_or(num_threads);
 
     // Spawn worker threads
     for i in 0..num_threads {
@@ -81,6 +84,22 @@ enum Job {
     Done
 }
 
+/// [verification hook] Optional scheduling jitter between the protocol statements of a worker.
+#[cfg(rjrssync_verif)]
+fn verif_jitter() {
+    use std::sync::atomic::{AtomicU64, Ordering as O};
+    static STATE: AtomicU64 = AtomicU64::new(0);
+    if let Ok(v) = std::env::var("RJRSSYNC_VERIF_JITTER") {
+        let seed: u64 = v.parse().unwrap_or(1);
+        let x = STATE.fetch_add(0x9E3779B97F4A7C15, O::Relaxed).wrapping_add(seed).wrapping_mul(0xBF58476D1CE4E5B9);
+        match (x >> 60) & 7 {
+            0 => thread::sleep(std::time::Duration::from_micros((x >> 40) & 0xff)),
+            1 | 2 => thread::yield_now(),
+            _ => (),
+        }
+    }
+}
+
 fn worker_main<T, F: Fn(&std::fs::DirEntry) -> Result<FilterResult<T>, String>>(
     job_sender: Sender<Job>, job_receiver: Receiver<Job>,
     result_sender: Sender<Result<Entry<T>, String>>, num_unfinished_jobs: Arc<AtomicUsize>,
@@ -96,6 +115,8 @@ fn worker_main<T, F: Fn(&std::fs::DirEntry) -> Result<FilterResult<T>, String>>(
     loop {
         // Get the next job from the queue, blocking until one is available
         let job = job_receiver.recv().expect("Job channel disconnected");
+        #[cfg(rjrssync_verif)]
+        verif_jitter();
 
         match job {
             Job::Dir(dir) => {
@@ -156,6 +177,8 @@ fn worker_main<T, F: Fn(&std::fs::DirEntry) -> Result<FilterResult<T>, String>>(
                         file_type,
                         additional_data,
                     }))?;
+                    #[cfg(rjrssync_verif)]
+                    verif_jitter();
                     profiling::stop_timer(timer);
 
                     let timer = profiling::start_timer("recurse");
@@ -164,6 +187,8 @@ fn worker_main<T, F: Fn(&std::fs::DirEntry) -> Result<FilterResult<T>, String>>(
                     // the children of this folder are always after the folder itself in the results.
                     if let Some(x) = child_dir_to_recurse {
                         num_unfinished_jobs.fetch_add(1, Ordering::SeqCst);
+                        #[cfg(rjrssync_verif)]
+                        verif_jitter();
                         job_sender.send(Job::Dir(x)).expect("Job channel disconnected");
                     }
                     profiling::stop_timer(timer);
@@ -174,6 +199,8 @@ fn worker_main<T, F: Fn(&std::fs::DirEntry) -> Result<FilterResult<T>, String>>(
 
         // Check if the job we just finished was the last job that needed doing, and thus we are finished.
         // In this case, wake all the other threads up and tell them to quit.
+        #[cfg(rjrssync_verif)]
+        verif_jitter();
         let prev_count = num_unfinished_jobs.fetch_sub(1, Ordering::SeqCst);
         if prev_count == 1 {
             assert_eq!(job_sender.len(), 0); // Sanity test - the queue length should always be <= num_unfinished_jobs
